@@ -60,4 +60,53 @@ def inmapFasta (abc : Nat) : Bytes :=
   let m := setByte m 10 Tables.dsqEol
   setByte m 62 Tables.dsqEod
 
+/-- `inmap_embl` = `inmap_genbank`: digits, blanks and line ends ignored, `/` ends the data -/
+def inmapEmbl (abc : Nat) : Bytes :=
+  let base : Bytes :=
+    if abc == 0 then
+      (Array.range 128).map fun x =>
+        if (65 ≤ x && x ≤ 90) || (97 ≤ x && x ≤ 122) then UInt8.ofNat x else Tables.dsqIllegal
+    else
+      setByte ((Array.range 128).map fun x => (abcInmap abc).getD x Tables.dsqIllegal) 45 Tables.dsqIllegal
+  let m := (List.range 10).foldl (fun m d => setByte m (48 + d) Tables.dsqIgnored) base
+  let m := setByte m 42 42
+  let m := setByte m 32 Tables.dsqIgnored
+  let m := setByte m 9 Tables.dsqIgnored
+  let m := setByte m 10 Tables.dsqIgnored
+  let m := setByte m 13 Tables.dsqIgnored
+  setByte m 47 Tables.dsqEod
+
+/-- `inmap_daemon`: as FASTA but `/` (not `>`) ends the data -/
+def inmapDaemon (abc : Nat) : Bytes :=
+  let m := setByte (inmapFasta abc) 62 (if abc == 0 then Tables.dsqIllegal else (abcInmap abc).getD 62 Tables.dsqIllegal)
+  setByte m 47 Tables.dsqEod
+
+/-! C-string views of a line buffer -/
+
+/-- the C string starting at offset `k` of a buffer whose byte `size` is the terminating NUL -/
+def cstrFrom (l : Bytes) (k : Nat) : Bytes := cstr (l.extract k l.size)
+
+/-- `strncmp(buf, p, p.length) == 0` -/
+def hasPrefix (l : Bytes) (p : String) : Bool :=
+  let pb := p.toUTF8.data
+  (cstr l).extract 0 pb.size == pb
+
+/-- `esl_str_IsBlank` -/
+def isBlankStr (l : Bytes) : Bool := (cstr l).all isSpace
+
+/-- `esl_strtok(&s, delim, &tok)` on the C string `s`: the first token, or `none` (eslEOL) -/
+def strtok (s : Bytes) (delim : List UInt8) : Option Bytes :=
+  let t := (s.toList.dropWhile fun c => delim.contains c)
+  if t.isEmpty then none else some (t.takeWhile fun c => !delim.contains c).toArray
+
+/-- `esl_strchop(s, n)` followed by reading `s` as a C string -/
+def chopped (raw : Bytes) : Bytes :=
+  cstr (raw.toList.reverse.dropWhile isSpace).reverse.toArray
+
+/-- `strstr(buf, pat) != NULL` -/
+def containsStr (l : Bytes) (pat : String) : Bool :=
+  let pb := pat.toUTF8.data.toList
+  let s := (cstr l).toList
+  (List.range (s.length + 1)).any fun i => (s.drop i).take pb.length == pb
+
 end EaselModel.Sqio
